@@ -20,12 +20,14 @@ import (
 
 var rateData = types.UTXOChangeRateDataEVM()
 
+const keyProbe = "metering/unmetered-decimals-probe-after-issue"
+
 // ---------------------------------------------------------------- probe set and snapshots
 
 const (
-	maxAddrs  = 48
-	maxTokens = 10
-	maxSlots  = 16
+	maxAddrs   = 48
+	maxTokens  = 10
+	maxSlots   = 16
 	baseFields = 7 // exist, empty, balance, nonce, credits, codehash, suicided
 )
 
@@ -272,13 +274,20 @@ type monitor struct {
 	steps      uint64
 	probeSteps uint64
 	thash      uint64
-	aborted    bool
+	aborted    bool // monitoring has stopped and the EVM was cancelled (violation or truncation)
+	truncated  bool // stopped by the harness' own work cap: not a finding, the prefix was fully checked
+	work       uint64
+	workCap    uint64
+	nframes    uint64
 
 	lastDepth  int
 	frames     []frameInfo
 	pending    []*site
 	probeDepth int // depth of the running decimals() probe frame, 0 = none
 	probes     int
+	probeGas0  uint64 // gas the running probe frame started with
+	probeCur   uint64 // gas the running probe frame has consumed so far
+	uncharged  uint64 // gas consumed by finished probe frames (nobody is charged for it)
 
 	snapshots      int
 	snapshotBudget int
@@ -288,7 +297,6 @@ type monitor struct {
 	framesFailedCk int
 	framesOK       int
 	framesSkipped  int
-	failedWithDiffCandidates int
 	ops            [256]uint32
 
 	started, ended bool
@@ -301,7 +309,7 @@ type monitor struct {
 }
 
 func newMonitor(st *state.StateDB, w *world, heavy bool) *monitor {
-	m := &monitor{st: st, heavy: heavy, gas: w.Gas, thash: 1469598103934665603, snapshotBudget: 2400}
+	m := &monitor{st: st, heavy: heavy, gas: w.Gas, thash: 1469598103934665603, snapshotBudget: 2400, workCap: 3000000}
 	m.stepLimit = 10000000
 	if w.Gas > m.stepLimit/100 {
 		if w.Gas > (1<<63)/100 {
@@ -367,6 +375,7 @@ func (m *monitor) step(env *evm.EVM, pc uint64, op evm.OpCode, gas, cost uint64,
 	}
 	if !fault {
 		m.steps++
+		m.work++
 		m.ops[byte(op)]++
 	}
 	m.mix(pc<<20 ^ uint64(op)<<8 ^ uint64(depth)<<40)
@@ -394,15 +403,19 @@ func (m *monitor) step(env *evm.EVM, pc uint64, op evm.OpCode, gas, cost uint64,
 	newFrame := depth > m.lastDepth || fr.c != contract
 	if m.probeDepth != 0 && (depth < m.probeDepth || (depth == m.probeDepth && newFrame)) {
 		m.probeDepth = 0
+		m.uncharged += m.probeCur
+		m.probeCur = 0
 	}
 	if newFrame {
 		fr.c = contract
 		fr.lastGas = gas
-		if m.probeDepth == 0 && contract.CallerAddress == (common.Address{}) && bytes.Equal(contract.Input, rateData) &&
-			(depth == 1 || m.frames[depth-1].c == nil || m.frames[depth-1].c.Address() != (common.Address{})) {
+		m.nframes++
+		m.work += 40 // a frame costs the harness far more than a step
+		if m.probeDepth == 0 && contract.CallerAddress == (common.Address{}) && bytes.Equal(contract.Input, rateData) {
 			// the chain's own decimals() static call after a successful ISSUE (GetUTXOChangeRate): its caller is the zero address
 			m.probeDepth = depth
 			m.probes++
+			m.probeGas0 = gas
 		}
 		if n := len(m.pending); n > 0 && m.pending[n-1].depth == depth-1 && m.probeDepth == 0 {
 			s := m.pending[n-1]
@@ -418,19 +431,38 @@ func (m *monitor) step(env *evm.EVM, pc uint64, op evm.OpCode, gas, cost uint64,
 		fr.lastGas = gas
 	}
 	m.lastDepth = depth
-	if m.probeDepth != 0 && !fault {
-		m.probeSteps++
+	if m.probeDepth != 0 {
+		if !fault {
+			m.probeSteps++
+		}
+		if depth == m.probeDepth && gas <= m.probeGas0 {
+			m.probeCur = m.probeGas0 - gas
+		}
+		if m.uncharged+m.probeCur > m.gas {
+			// the uncharged work alone already exceeds everything the execution was given
+			m.aborted = true
+			env.Cancel()
+			m.find(keyProbe, fmt.Sprintf("%d gas supplied, but the decimals() static calls that evm.Call/Create make after a successful ISSUE (GetUTXOChangeRate, 1e10 gas each, charged to nobody) have already consumed %d gas in %d interpreter steps",
+				m.gas, m.uncharged+m.probeCur, m.probeSteps), nil)
+			return
+		}
 	}
 
 	if m.steps > m.stepLimit {
 		m.aborted = true
 		env.Cancel()
 		if m.probeDepth != 0 {
-			m.find("metering/unmetered-decimals-probe-after-issue",
+			m.find(keyProbe,
 				fmt.Sprintf("more than max(1e7,100*gas)=%d interpreter steps for %d supplied gas; %d of them inside the uncharged decimals() static call that evm.Call/Create make after a successful ISSUE (GetUTXOChangeRate, 1e10 gas)", m.stepLimit, m.gas, m.probeSteps), nil)
 		} else {
 			m.find("metering/steps-exceed-gas-budget", fmt.Sprintf("more than max(1e7,100*gas)=%d interpreter steps for %d supplied gas (steps inside decimals() probes: %d)", m.stepLimit, m.gas, m.probeSteps), nil)
 		}
+		return
+	}
+	if m.work > m.workCap {
+		// bound the cost of one case; everything up to here has been checked, the rest is not looked at
+		m.aborted, m.truncated = true, true
+		env.Cancel()
 		return
 	}
 	if !m.heavy {
@@ -441,7 +473,7 @@ func (m *monitor) step(env *evm.EVM, pc uint64, op evm.OpCode, gas, cost uint64,
 	for n := len(m.pending); n > 0 && m.pending[n-1].depth >= depth; n = len(m.pending) {
 		s := m.pending[n-1]
 		m.pending = m.pending[:n-1]
-		if s.depth == depth && s.contract == contract {
+		if s.depth == depth && s.contract == contract && !(fault && s.pc == pc) {
 			m.resolve(s, op, gas, stack)
 		}
 	}
@@ -559,15 +591,12 @@ func opClass(op evm.OpCode) string {
 	return "call"
 }
 
+// joinKinds names the most significant kind of field that differs (one stable class per kind).
 func joinKinds(k map[string]bool) string {
-	out := ""
-	for _, n := range []string{"exist", "empty", "balance", "token", "nonce", "credits", "code", "suicided", "storage", "refund", "logs"} {
+	for _, n := range []string{"storage", "balance", "token", "nonce", "code", "exist", "suicided", "logs", "refund", "credits", "empty"} {
 		if k[n] {
-			if out != "" {
-				out += "+"
-			}
-			out += n
+			return n
 		}
 	}
-	return out
+	return "other"
 }
